@@ -6,6 +6,7 @@ C01 — Discounted solvers return near-optimal policies (and values) on converge
 The bounds are theorems about what the *model loop* returns when it reports convergence.
 -/
 import MdpaxV.Theory.Bridge
+import MdpaxV.Theory.GaussSeidel
 import MdpaxV.Props.C08
 set_option linter.unusedSectionVars false
 namespace MdpaxV.C01
@@ -133,12 +134,10 @@ theorem nChanged_eq_zero (a b : List Nat) (h : a.length = b.length) (h0 : nChang
       have := ih ys (by simpa using h) (by simp [hxy] at h0; exact h0)
       rw [hxy, this]
 
-/-- well-formed state index: `state_to_index(state_i) = i` -/
-def IdxWF (P : Problem α) : Prop := ∀ s, s < P.nS → P.sidx s = (s : Int)
+/-- well-formed state index: `state_to_index(state_i) = i` (defined in Theory/Bridge) -/
+abbrev IdxWF (P : Problem α) : Prop := MdpaxV.IdxWF P
 
-theorem clampIdx_cast (n s : Nat) (h : s < n) : clampIdx n (s : Int) = s := by
-  unfold clampIdx; simp only []
-  split <;> split <;> (try split) <;> omega
+theorem clampIdx_cast (n s : Nat) (h : s < n) : clampIdx n (s : Int) = s := MdpaxV.clampIdx_cast n s h
 
 /-- the evaluation sweep on lists *is* `Tpol` of the policy list -/
 theorem evalSweep_eq_Tpol (hv : C02.Valid P c) (hw : IdxWF P) (pl : List Nat) (hpl : pl.length = P.nS)
@@ -227,6 +226,103 @@ theorem evaluate_returns (thr : α) (t : ConvTest) (pl : List Nat) (budget : Nat
         cases j with
         | zero => simpa using hnot
         | succ j => rw [Function.iterate_succ_apply]; exact h2 j (by omega)
+
+/-! ### semi-asynchronous value iteration -/
+
+/-- **Semi-asynchronous sweep, max_diff test** — for every partition (batch size × device count), every permutation of the
+    states and every resolution of colliding writes: if one sweep `V1 = G V0` changes no value by ε(1−γ)/γ or more, then `V1`
+    is within ε of the optimal values and the greedy policy for `V1` is within 2γε/(1−γ) of optimal at every state -/
+theorem semiasync_maxdiff_near_optimal (S : Setting P c γ) (hw : IdxWF P)
+    (perm : Option (List Nat)) (hperm : (orderOf' c.n perm).Perm (List.range c.n)) (choose : Nat → Bool)
+    (V0 : List α) (hV0 : V0.length = P.nS)
+    (htest : maxDiff (semiSweep P c γ V0 perm choose 0) V0 < ε * (1 - γ) / γ)
+    (W U : Fin P.nS → α) (hW : Top P γ W = W)
+    (hU : Tpol P γ (polFn P.nS (policy P c γ (semiSweep P c γ V0 perm choose 0) 0)) U = U) (i : Fin P.nS) :
+    |toFn P.nS (semiSweep P c γ V0 perm choose 0) i - W i| < ε ∧
+    0 ≤ W i - U i ∧ W i - U i < 2 * γ * ε / (1 - γ) := by
+  haveI : Nonempty (Fin P.nS) := ⟨⟨0, S.valid.1⟩⟩
+  have hv18 := C02.valid18 S.valid
+  have hn := S.valid.2.1
+  have h5 : 0 < 1 - γ := by linarith [S.hγ1]
+  set V1 := semiSweep P c γ V0 perm choose 0 with hV1
+  -- the optimal values as a list
+  set Wst := List.ofFn W with hWst
+  have hWl : Wst.length = P.nS := by simp [hWst]
+  have hWget : ∀ s (hs : s < P.nS), Wst.getD s 0 = W ⟨s, hs⟩ := by
+    intro s hs; simp [hWst, List.getD_eq_getElem?_getD, hs]
+  have hfix : ∀ s, s < P.nS → backup P γ (look Wst) s = Wst.getD s 0 := by
+    intro s hs
+    have := congrFun hW ⟨s, hs⟩
+    simp only [Top] at this
+    rw [hWget s hs]; exact this
+  -- distance of V0 from the optimum
+  set δ0 := vnorm (fun j => toFn P.nS V0 j - W j) with hδ0
+  have hδ0nn : 0 ≤ δ0 := le_trans (abs_nonneg _) (abs_le_vnorm (fun j => toFn P.nS V0 j - W j) i)
+  have hclose : ∀ s, s < P.nS → |V0.getD s 0 - Wst.getD s 0| ≤ δ0 := by
+    intro s hs
+    rw [hWget s hs]
+    exact abs_le_vnorm (fun j => toFn P.nS V0 j - W j) ⟨s, hs⟩
+  have hcontr : ∀ s (hs : s < P.nS), |V1.getD s 0 - W ⟨s, hs⟩| ≤ γ * δ0 := by
+    intro s hs
+    rw [← hWget s hs]
+    exact semiSweep_contracts P c hv18 hn hw γ S.hγ0.le S.hγ1.le S.stoch S.hA Wst hWl hfix V0 hV0 δ0 hδ0nn hclose perm hperm choose 0 s hs
+  -- length of V1 and the measure as a sup norm
+  have hV1len : V1.length = P.nS := by
+    rw [hV1, semiSweep_eq_assemble P c hv18 hn]
+    unfold assemble
+    have hub : ∀ r : List (List (List α)), r.flatten.flatten.length = slots c → (unbatch c r).length = c.n := by
+      intro r hr
+      rw [C18.unbatch_take c hv18 r hr, List.length_take, hr]
+      exact Nat.min_eq_left (slots_ge c hv18.1 hv18.2.1 hv18.2.2)
+    have hlen2 : (((prepare c none ((orderOf' c.n perm).map some)).map (specRun P γ 0 V0)).flatten.flatten).length = slots c := by
+      rw [flatten_outs_length _ _ (fun d _ => specRun_length P γ 0 V0 d), C18.prepare_layout c hv18]
+      have := C18.slots_eq c hv18
+      simp [hperm.length_eq]; unfold npad at this ⊢; omega
+    cases perm with
+    | none => simp only; rw [hub _ hlen2, hn]
+    | some p => simp [hn]
+  set m := maxDiff V1 V0 with hm
+  have hmnorm : m = vnorm (fun j => toFn P.nS V1 j - toFn P.nS V0 j) := maxDiff_eq_vnorm P.nS V1 V0 hV1len hV0
+  -- δ0 ≤ m + γ δ0
+  obtain ⟨k, hk⟩ := exists_eq_vmax (fun j => |toFn P.nS V0 j - W j|)
+  have hδ0le : δ0 ≤ m + γ * δ0 := by
+    have h1 : |toFn P.nS V1 k - toFn P.nS V0 k| ≤ m := by rw [hmnorm]; exact abs_le_vnorm (fun j => toFn P.nS V1 j - toFn P.nS V0 j) k
+    have h2 := hcontr k.val k.isLt
+    have h3 : |toFn P.nS V0 k - W k| = δ0 := hk
+    have htri : |toFn P.nS V0 k - W k| ≤ |toFn P.nS V1 k - toFn P.nS V0 k| + |toFn P.nS V1 k - W k| := by
+      have := abs_sub_le (toFn P.nS V0 k) (toFn P.nS V1 k) (W k)
+      rw [abs_sub_comm (toFn P.nS V0 k) (toFn P.nS V1 k)] at this
+      exact this
+    have h2' : |toFn P.nS V1 k - W k| ≤ γ * δ0 := h2
+    linarith
+  have hδ0bound : δ0 ≤ m / (1 - γ) := by rw [le_div_iff₀ h5]; nlinarith
+  have hγm : γ * (m / (1 - γ)) < ε := by
+    have hmlt : m < ε * (1 - γ) / γ := htest
+    have h1 : γ * m < ε * (1 - γ) := by
+      have := mul_lt_mul_of_pos_left hmlt S.hγ0
+      have hγne : γ ≠ 0 := ne_of_gt S.hγ0
+      have e : γ * (ε * (1 - γ) / γ) = ε * (1 - γ) := by
+        rw [mul_div_assoc', mul_comm γ (ε * (1 - γ)), mul_div_assoc, div_self hγne, mul_one]
+      rw [e] at this; exact this
+    have e2 : γ * (m / (1 - γ)) = γ * m / (1 - γ) := by ring
+    rw [e2, div_lt_iff₀ h5]; exact h1
+  -- values clause
+  have hvals : ∀ j : Fin P.nS, |toFn P.nS V1 j - W j| ≤ γ * (m / (1 - γ)) := by
+    intro j
+    have := hcontr j.val j.isLt
+    have h2 : γ * δ0 ≤ γ * (m / (1 - γ)) := mul_le_mul_of_nonneg_left hδ0bound S.hγ0.le
+    exact le_trans this h2
+  -- policy clause via greedy loss
+  obtain ⟨hgreedy, hact⟩ := policy_greedy P c S.valid S.hA γ V1 hV1len
+  have hT := Top_monoShift P γ S.hγ0.le S.stoch S.valid.1 S.hA
+  have hπ := Tpol_monoShift P γ S.hγ0.le S.stoch S.valid.1 _ hact
+  have hloss := greedy_loss (Top P γ) (Tpol P γ _) γ (γ * (m / (1 - γ))) hT hπ S.hγ0.le S.hγ1
+    (fun u j => Tpol_le_Top P γ S.hA _ hact u j) (toFn P.nS V1) W U hgreedy hW hU hvals i
+  refine ⟨lt_of_le_of_lt (hvals i) hγm, hloss.1, lt_of_le_of_lt hloss.2 ?_⟩
+  rw [div_lt_div_iff_of_pos_right h5]
+  have : 2 * γ * (γ * (m / (1 - γ))) < 2 * γ * ε := by
+    apply mul_lt_mul_of_pos_left hγm; linarith [S.hγ0]
+  exact this
 
 /-! non-vacuity: the 2-state example is a `Setting`; its optimal value is an explicit fixed point over ℚ -/
 example : Setting C02.exP ⟨2, 1, 1⟩ (1/2 : Rat) :=
